@@ -11,6 +11,8 @@
 From Coq Require Import List Arith NArith.
 From RS Require Import Buddy.BuddyTree Buddy.Alloc Buddy.AllocProofs TW.App TW.Worker TW.WorkerProofs.
 From Coq Require Import Sorted.
+From RS Require TW.AppAbs TW.WorkerOnceApp TW.WorkerAbs.
+From RS.Abs Require Abs.
 Import ListNotations.
 
 Theorem C05_arena_restore_is_exact : forall B H (a a' : arena), length (a_cells a') = length (a_cells a) ->
@@ -59,7 +61,17 @@ Theorem C05_rollback_state : forall (p : prog) (x : lpx) past ref snap older,
                  ((ref, snap) :: older) (x_rem x) (x_epoch x)).
 Proof. exact rollback_lp_ok. Qed.
 
+(* across fossil collections too: the state of every LP is the handlers folded, from the LP's initial state, over its WHOLE history
+   (the part fossil collection released, kept on the abstract side of the refinement, followed by the retained part) *)
+Theorem C05_lp_state_is_the_fold_of_its_whole_history : forall (p : prog) (ck : nat), WorkerOnceApp.types_okb p = true ->
+  forall ops : list wop,
+  let w := fold_left (wstep p ck) ops (w_init p) in
+  exists a, WorkerAbs.R p w a /\
+    forall l, l < AppAbs.nlps p -> x_st (get_lp w l) = Abs.stof AppAbs.cont lpstate (AppAbs.s0 p) (AppAbs.ahandle p) l (Abs.hist AppAbs.cont a l).
+Proof. exact WorkerAbs.worker_state_is_fold_of_history. Qed.
+
 Print Assumptions C05_arena_restore_is_exact.
+Print Assumptions C05_lp_state_is_the_fold_of_its_whole_history.
 Print Assumptions C05_every_reachable_lp_state_is_the_replay_of_its_history.
 Print Assumptions C05_rollback_state.
 Print Assumptions C05_every_reachable_history_is_wellformed.
